@@ -25,6 +25,34 @@ def shard_trie(desc):
     return qrun.trie_shard(desc)[1]
 
 
+WITNESSES = [
+    # (p, stream): deterministic witnesses of the two recorded known findings
+    (0.25, [1.7e308, -1.7e308, 1.7e308, -1.7e308, 1.7e308, -1.7e308, 1.7e308]),
+    (0.5, [5e-324, 5e-324]),
+]
+
+
+def witness(binary, variant):
+    from common import Case, run_driver
+    J = qrun.Judge(variant)
+    cases = []
+    for i, (p, xs) in enumerate(WITNESSES):
+        c = Case('witness-%d' % i, 'Quantile', [p], meta={'kind': 'witness'})
+        c.op('N', 0)
+        marks = []
+        for j, x in enumerate(xs, 1):
+            c.op('A', 0, [x])
+            marks.append((c.op('OS', 0), j))
+        cases.append((c, p, xs, marks))
+    logs = run_driver(binary, ''.join(c.text() for c, *_ in cases))
+    for c, p, xs, marks in cases:
+        qrun.judge_stream_case(J, c, p, xs, marks, 'witness', logs[c.id])
+    J.r15.counters = {'witness_streams': len(cases)}
+    J.r15.distinct = set()
+    J.r15.samples = []
+    return J.r15
+
+
 def run(tier, seed):
     t0 = time.time()
     total = Result()
@@ -33,6 +61,7 @@ def run(tier, seed):
         total, cfg = c05.run_workload(tier, seed, shard_stream, shard_trie)
         for variant in ('release', 'dev'):
             total.merge(qrun.ctor_shard({'binary': build(variant), 'variant': variant}))
+            total.merge(witness(build(variant), variant))
     except common.Inconclusive as e:
         total.inconclusive.append(str(e))
     need = {'invariant_states': 20000, 'state_wellformed_checks': 10000, 'constructor_checks': 30, 'streams_constant': 5,
